@@ -243,8 +243,8 @@ func (n *refNode) Notify(r node.NotifyRequest) (node.NotifyCloser, error) {
 	return nil, fmt.Errorf("refstore: no notifications")
 }
 func (n *refNode) Peek(sel *node.Selection, consumer interface{}) interface{} { return n.d }
-func (n *refNode) Context(sel *node.Selection) context.Context              { return sel.Context }
-func (n *refNode) Release(sel *node.Selection)                              {}
+func (n *refNode) Context(sel *node.Selection) context.Context                { return sel.Context }
+func (n *refNode) Release(sel *node.Selection)                                {}
 
 type refList struct {
 	st     *Store
@@ -354,5 +354,5 @@ func (l *refList) Notify(r node.NotifyRequest) (node.NotifyCloser, error) {
 	return nil, fmt.Errorf("refstore: no notifications")
 }
 func (l *refList) Peek(sel *node.Selection, consumer interface{}) interface{} { return l.list() }
-func (l *refList) Context(sel *node.Selection) context.Context              { return sel.Context }
-func (l *refList) Release(sel *node.Selection)                              {}
+func (l *refList) Context(sel *node.Selection) context.Context                { return sel.Context }
+func (l *refList) Release(sel *node.Selection)                                {}
